@@ -59,13 +59,13 @@ CHECKS["C03"] = {
 }
 CHECKS["C04"] = {
     "technique": "unwind-window typestate over MIR: ownership state at every call that can run caller code inside each element-moving step (closure or loop); owner liveness on unwind edges through drop flags; foreign-call classification from resolved callees",
-    "text": "Static typestate analysis: every call terminator that can run caller-supplied code (closure calls, Clone/Default/Iterator::next/SeqAccess on generic types, generic drops, and crate functions that transitively contain one) is visited with the abstract ownership state at that point - in consumer closures every ptr::read-duplicated element has already been excluded from its owner, in builder closures/loops a written slot is already counted and never counted before written; each position is a field of a tracked owner whose storage the slots iterate, and drop elaboration drops that owner on the unwind path of the driving call (followed through drop flags); raw element writes outside closures are counted by a live owner before any later foreign call; helper-function models are verified against the helpers' bodies. This quantifies over every panic point because unwind edges are explicit in MIR; no panic is injected. It found the GenericArrayIter::clone leak (fixed, see known_findings.json).",
+    "text": "Static typestate analysis: every call terminator that can run caller-supplied code (closure calls, Clone/Default/Iterator::next/SeqAccess on generic types, generic drops, and crate functions that transitively contain one) is visited with the abstract ownership state at that point - in consumer closures every ptr::read-duplicated element has already been excluded from its owner, in builder closures/loops a written slot is already counted and never counted before written; each position is a field of a tracked owner whose storage the slots iterate, and drop elaboration drops that owner on the unwind path of the driving call (followed through drop flags); raw element writes outside closures are counted by a live owner before any later foreign call; helper-function models are verified against the helpers' bodies. This quantifies over every panic point because unwind edges are explicit in MIR; no panic is injected. It found the GenericArrayIter::clone leak (fixed, see known_findings.json). C04.Y: the same duplicate-window rule for raw reads outside protocol closures and pipeline loops (hand-written index loops in methods of an owner).",
     "design_ref": "DESIGN.md §3 C04",
     "note": TRUST + " Overflow checks on positions are not treated as foreign code; a panic while dropping the caller's closure object itself is outside the property's quantifier.",
 }
 CHECKS["C05"] = {
     "technique": "range-owner typestate: symbolic disjointness of the destroyed range and the owner's claimed range at every drop_in_place in &mut self methods; Drop-range extraction",
-    "text": "Static analysis: the owners' Drop ranges are extracted symbolically from their Drop impls (and shown to be [0,position) / [position,N) / [index,index_back) of storage without drop glue); in every &mut self method of such a type, at each drop_in_place call the field values stored so far make the owner's claimed range provably disjoint from the destroyed range (exclude-before-destroy), so a destructor that unwinds cannot cause the owner's Drop to release the range again; by-value methods (count, last) only call &mut-self primitives and drop self once. Universally quantified over n, positions and which element panics. It found the nth / nth_back double drop (fixed, see known_findings.json).",
+    "text": "Static analysis: the owners' Drop ranges are extracted symbolically from their Drop impls (and shown to be [0,position) / [position,N) / [index,index_back) of storage without drop glue); in every &mut self method of such a type, at each drop_in_place call the field values stored so far make the owner's claimed range provably disjoint from the destroyed range (exclude-before-destroy), so a destructor that unwinds cannot cause the owner's Drop to release the range again; by-value methods (count, last) only call &mut-self primitives and drop self once. Universally quantified over n, positions and which element panics. It found the nth / nth_back double drop (fixed, see known_findings.json). C05.Y applies to every method of a tracked owner (by-reference and by-value receivers): an element read out of the owner's storage is excluded from the claimed range before any later call that can unwind while the owner is live.",
     "design_ref": "DESIGN.md §3 C05",
     "note": TRUST + " core's slice drop_in_place itself never drops an element twice when one destructor unwinds (trusted). Leaks after an unwinding destructor are allowed by the property.",
 }
@@ -99,7 +99,7 @@ CHECKS["C12"] = {
 
 CHECKS["C14"] = {
     "technique": "MIR abstract interpretation with interpreted atoms (min, >>k, &mask, chunk length) and relational merge facts, anchored on what reaches Formatter::write_str: budget / coverage / capacity obligations of every unchecked operation in hex.rs, per-index store rule for the table encoder, per-iteration accounting rule for the chunk loop",
-    "text": "Decided statically, with N, the precision and the byte values symbolic, under F0/F1 (table encoder) and - capacity and case selection only - F2 = faster-hex (thorough). WHAT IS PRINTED: H8 the table encoder stores, for every k < src.len(), dst[2k] = TABLE[src[k] >> 4] and dst[2k+1] = TABLE[src[k] & 15] (closure over zip(dst.chunks_exact_mut(2), src), or the loop forms over the same pairing), H6 TABLE is b\"0123456789abcdef\" for LowerHex / ..ABCDEF for UpperHex (UPPER forwarded unchanged); H10 on the stack-buffer path every path to the single print runs exactly one encoder call from arr[0..L), L >= ceil(d/2), into the printed buffer from its first byte; H9 on the chunked path the pieces are input.chunks(k) over arr[0..ceil(d/2)) in order, each iteration encodes its piece into the buffer's start once before printing, prints exactly min(2*piece, digits_left) and digits_left starts at d and is only ever decremented by what was printed; H1/H7 d = min(precision, 2N) exactly and the stack-buffer print has length d. Together: the output is the first min(p, 2N) characters of the concatenated two-digit forms in index order (a prefix-of-concatenation argument stated in DESIGN; odd p ends on a high nibble because the cut is a prefix). SAFETY of every unchecked operation: H2 ceil(d/2) <= N (both hint spellings), 2*bytes >= d; H3/H4 printed prefixes lie inside their buffers, entered under N <= 1024 resp. with 2*chunk <= 2048 and no budget underflow; H5 dst.len() >= 2*src.len() at every encoder call (the precondition of the encoder's hint and of unwrap_unchecked on faster_hex's result). PARTIAL in one respect only: equality of the SIMD encoder's digits with the table encoder's is faster_hex's contract (trusted, not analysed); a chunked path that is not a loop over an iterator pipeline is recorded as not decided (evidence: coverage.not_decided), not as a violation - the claim then falls back to the safety obligations.",
+    "text": "Decided statically, with N, the precision and the byte values symbolic, under F0/F1 (table encoder) and - capacity and case selection only - F2 = faster-hex (every run). WHAT IS PRINTED: H8 the table encoder stores, for every k < src.len(), dst[2k] = TABLE[src[k] >> 4] and dst[2k+1] = TABLE[src[k] & 15] (closure over zip(dst.chunks_exact_mut(2), src), or the loop forms over the same pairing), H6 TABLE is b\"0123456789abcdef\" for LowerHex / ..ABCDEF for UpperHex (UPPER forwarded unchanged); H10 on the stack-buffer path every path to the single print runs exactly one encoder call from arr[0..L), L >= ceil(d/2), into the printed buffer from its first byte; H9 on the chunked path the pieces are input.chunks(k) over arr[0..ceil(d/2)) in order, each iteration encodes its piece into the buffer's start once before printing, prints exactly min(2*piece, digits_left) and digits_left starts at d and is only ever decremented by what was printed; H1/H7 d = min(precision, 2N) exactly and the stack-buffer print has length d. Together: the output is the first min(p, 2N) characters of the concatenated two-digit forms in index order (a prefix-of-concatenation argument stated in DESIGN; odd p ends on a high nibble because the cut is a prefix). SAFETY of every unchecked operation: H2 ceil(d/2) <= N (both hint spellings), 2*bytes >= d; H3/H4 printed prefixes lie inside their buffers, entered under N <= 1024 resp. with 2*chunk <= 2048 and no budget underflow; H5 dst.len() >= 2*src.len() at every encoder call (the precondition of the encoder's hint and of unwrap_unchecked on faster_hex's result). PARTIAL in one respect only: equality of the SIMD encoder's digits with the table encoder's is faster_hex's contract (trusted, not analysed); a chunked path that is not a loop over an iterator pipeline is recorded as not decided (evidence: coverage.not_decided), not as a violation - the claim then falls back to the safety obligations.",
     "design_ref": "DESIGN.md §3 C14, §8.6",
     "note": TRUST + " faster_hex's documented contract (lower/upper-case two-digit encoding; fails only on an undersized destination), slice::chunks / chunks_exact_mut / Zip pairing order, and that a str built from ASCII digit bytes prints those bytes are trusted.",
 }
@@ -112,7 +112,7 @@ CHECKS["C15"] = {
 }
 CHECKS["C16"] = {
     "technique": "heap typestate on MIR: non-zero-size and null-check dominance at raw alloc sites, raw-owned window vs foreign calls, into_raw/from_raw provenance and symbolic layout equality; positive fixture keeps zero-instance rules non-vacuous",
-    "text": "Static heap-ownership rules over the alloc-feature code: every raw alloc::alloc::* call site is checked for (Z) size != 0 implied by the dominating facts with size = N*size_of T symbolic, (N) every use of the returned pointer on the non-null edge of a test whose other edge diverges into handle_alloc_error, (U) no foreign-code call between the allocation and the Box::from_raw that gives the block an owner; every Box::from_raw is fed by the Box::into_raw (or alloc) of the same block at offset 0 with equal symbolic size under the dominating facts and the same element type (so the block is released with the layout it was requested with); raw element writes are owner-counted (C04.W). The rules found three defects in Box<GenericArray>::generate (zero-size request for N = 0, missing null check, block leaked on panic), all fixed (known_findings.json); as the repaired tree has no raw alloc site, the same rules are run on a positive fixture on which Z, N and U must fire. What a real allocator does on failure needs execution and is not claimed.",
+    "text": "Static heap-ownership rules over the alloc-feature code: every raw alloc::alloc::* call site is checked for (Z) size != 0 implied by the dominating facts with size = N*size_of T symbolic, (N) every use of the returned pointer on the non-null edge of a test whose other edge diverges into handle_alloc_error, (U) no foreign-code call between the allocation and the Box::from_raw that gives the block an owner; every Box::from_raw is fed by the Box::into_raw (or alloc) of the same block at offset 0 with equal symbolic size under the dominating facts and the same element type (so the block is released with the layout it was requested with); raw element writes are owner-counted (C04.W). The rules found three defects in Box<GenericArray>::generate (zero-size request for N = 0, missing null check, block leaked on panic), all fixed (known_findings.json); as the repaired tree has no raw alloc site, the same rules are run on a positive fixture on which Z, N and U must fire. What a real allocator does on failure needs execution and is not claimed. C16.E: allocation APIs that report failure as a value (try_reserve*, Box::try_new*, Vec::try_with_capacity, Allocator::allocate ..) occur only where, on every path to a normal return, the request is known to have succeeded - failure diverges through handle_alloc_error (zero sites on the reviewed tree; a positive and a negative fixture keep the rule from passing vacuously).",
     "design_ref": "DESIGN.md §3 C16",
     "note": TRUST + " Box/Vec allocate, free and report failure correctly; zero-size Boxes never touch the allocator.",
 }
@@ -137,7 +137,7 @@ CHECKS["C19"] = {
 }
 CHECKS["C20"] = {
     "technique": "analysis of macro EXPANSIONS: generated witness crate compiled by the driver; call-count and dominance-order rules on the witness MIR, aggregate operands, const-generic arguments; accept/reject length twins",
-    "text": "Static analysis of expansions: for every element count k (quick: 0..=12, 31..=33, 64, 100, 256; thorough: 0..=64, 100, 128, 255, 256), with and without trailing comma and in const fn position, the expanded list form calls each element expression exactly once on every path, in index order (dominance), passes an array aggregate whose operand i is the result of ei to from_array::<k> with N = U{k}; the repeat forms evaluate x() exactly once, repeat it by a `[v; n]` rvalue with n = N::USIZE (or the literal) and hand it to the size-guarded local const fn / from_array::<n>; box_arr! calls each element once in order into the vec! aggregate, counts the same k units and instantiates __from_vec_helper::<k> with N = U{k}, its repeat forms are from_elem(x(), n) -> try_from_vec -> unwrap; declared lengths type-check and off-by-one declarations are rejected (twins). Values equal the native literal because operand i = result of ei and from_array is a reinterpretation at offset 0.",
+    "text": "Static analysis of expansions: for every element count k (quick: 0..=12, 31..=33, 64, 100, 256; thorough: 0..=64, 100, 128, 255, 256), with and without trailing comma and in const fn position, the expanded list form calls each element expression exactly once on every path, in index order (dominance), passes an array aggregate whose operand i is the result of ei to from_array::<k> with N = U{k}; the repeat forms evaluate x() exactly once, repeat it by a `[v; n]` rvalue with n = N::USIZE (or the literal) and hand it to the size-guarded local const fn / from_array::<n>; box_arr! calls each element once in order into the vec! aggregate, counts the same k units and instantiates __from_vec_helper::<k> with N = U{k}, its repeat forms are from_elem(x(), n) -> try_from_vec -> unwrap; declared lengths type-check and off-by-one declarations are rejected (twins). Values equal the native literal because operand i = result of ei and from_array is a reinterpretation at offset 0. C20.H: the hidden helper that adopts the boxed list form's Vec does so under nothing but len == N (try_from_vec unwrapped, or a guarded into_boxed_slice -> from_raw hand-over).",
     "design_ref": "DESIGN.md §3 C20",
     "note": TRUST + " Language semantics of repeat expressions and vec! are trusted.",
 }
